@@ -93,15 +93,22 @@ class PreemptRun:
         return unpack(keys)
 
 
+SITES = []  # call sites (callee file:function @ caller line) of the last traced task, in call order
+
+
 def _run_pair(fa, fb, k):
     """Run fa in a traced thread, park it at its k-th abtem call event (k < 0: never), run fb meanwhile, resume fa."""
     reached, resume = threading.Event(), threading.Event()
     box = {}
     count = [0]
     parked = [None]
+    del SITES[:]
 
     def tracer(frame, event, arg):
         if event == "call" and "/abtem/" in frame.f_code.co_filename:
+            if k < 0:
+                back = frame.f_back
+                SITES.append((frame.f_code.co_filename.rsplit("/", 1)[-1], frame.f_code.co_name, back.f_lineno if back is not None else 0))
             if count[0] == k:
                 parked[0] = "%s:%s" % (frame.f_code.co_filename.rsplit("/", 1)[-1], frame.f_code.co_name)
                 reached.set()
@@ -144,7 +151,7 @@ def distinct_points(execute, match=None):
     return out
 
 
-def explore_pair(execute, same, max_points=400, nth_point=0, match=None, chunk=(0, 1), roles=("A-preempted-by-B", "B-preempted-by-A")):
+def explore_pair(execute, same, max_points=400, nth_point=0, match=None, chunk=(0, 1), roles=("A-preempted-by-B", "B-preempted-by-A"), sites=False):
     """execute(get) -> result.  chunk = (c, C): only the preemption points k with k % C == c are run (the caller distributes the chunks).
     Returns dict(runs, points, calls, exhaustive, deviating=[(role, k, parked_at)], pair)."""
     ref_run = PreemptRun(0, 0, 1, -1, nth_point, match)
@@ -163,7 +170,18 @@ def explore_pair(execute, same, max_points=400, nth_point=0, match=None, chunk=(
         calls.append(n)
         if not same(ref, r0):
             out["deviating"].append((role, -1, "order only"))
-        ks = [k for k in range(n) if k % chunk[1] == chunk[0]]
+        if sites:  # one preemption point per DISTINCT call site (its first occurrence): every kind of window is opened at least once
+            first, last = {}, {}
+            for i, st in enumerate(list(SITES)):
+                first.setdefault(st, i)
+                last[st] = i
+            pts = sorted(set(first.values()))
+            out["distinct_call_sites"] = len(first)
+            ks = [k for j, k in enumerate(pts) if j % chunk[1] == chunk[0]]
+            max_points = None
+            out["exhaustive"] = False
+        else:
+            ks = [k for k in range(n) if k % chunk[1] == chunk[0]]
         if max_points is not None and len(ks) > max_points:  # keep every call event of the first 3/4 of the budget's worth densely around ... no: uniform stride, reported as a cap
             stride = int(np.ceil(len(ks) / max_points))
             ks = ks[::stride]
